@@ -183,3 +183,7 @@ Lemma link_eval_rows :
   find_row C12_Table.redis_table "EvalShaCtx" =
     Some (Cmd "EvalShaCtx" ["string"; "[]string"; "...any"] (mkcmd true NodeGetRedis NoGuard "EvalSha" [P 0; P 1; PV 2] CId NilReturned)).
 Proof. split; reflexivity. Qed.
+
+(* --- round 4: construction (options, Config.NewRedis, getRedis, blocking nodes, kv.New) --- *)
+Lemma link_construction_table : C12_Table.construction_table = construction_spec.
+Proof. reflexivity. Qed.
